@@ -3,7 +3,6 @@ package main
 import (
 	"fmt"
 	"math/rand"
-	"sort"
 	"strings"
 
 	"verif/idl"
@@ -28,6 +27,10 @@ type scopeSpec struct {
 	OpClass     map[string]string
 	PrefixShape string   // e.g. "wvw" (w = word, v = variable), "-" = no prefix
 	Stress      []string // stress feature classes of the scope
+	// SkipLangs: targets not evaluated for this (witness) scope because they can
+	// only be inconclusive there (e.g. Dart for a single quote in the prefix);
+	// the thorough tier evaluates every target on the random exotic scopes.
+	SkipLangs map[string]bool
 }
 
 // batch is one IDL file compiled once per (delimiter, target).
@@ -37,7 +40,20 @@ type batch struct {
 	Scopes []*scopeSpec
 	ByOp   map[string]*scopeSpec
 	Delims []string
-	Kind   string // core | witness | exotic
+	Kind   string   // core | witness | exotic
+	Langs  []string // targets compiled for this batch (nil = all six)
+}
+
+func (b *batch) has(lang string) bool {
+	if b.Langs == nil {
+		return true
+	}
+	for _, l := range b.Langs {
+		if l == lang {
+			return true
+		}
+	}
+	return false
 }
 
 var c08words = []string{
@@ -257,60 +273,103 @@ func finishBatch(b *batch) {
 	b.Text = idl.RenderFile(f, idl.DefaultStyle())
 }
 
-func genBatch(rng *rand.Rand, name string, nScopes int, thorough bool, exotic bool) *batch {
+// genBatch draws one file; exoticKind != "" makes every scope of the file carry
+// that kind of exotic prefix character (one kind per file: a target whose
+// generator or tool chain chokes on it loses that file only).
+func genBatch(rng *rand.Rand, name string, nScopes int, thorough bool, exoticKind string) *batch {
 	b := &batch{Name: name, Kind: "core"}
+	if exoticKind != "" {
+		b.Kind = "exotic"
+	}
 	names := &namer{rng: rng, used: map[string]bool{"pay": true}}
 	ops := &namer{rng: rng, used: map[string]bool{}}
 	for i := 0; i < nScopes; i++ {
-		kind := ""
-		if exotic {
-			kind = exoticKindOrder[i%len(exoticKindOrder)]
-			b.Kind = "exotic"
-		}
-		b.Scopes = append(b.Scopes, genScope(rng, names, ops, thorough, kind))
+		b.Scopes = append(b.Scopes, genScope(rng, names, ops, thorough, exoticKind))
 	}
 	finishBatch(b)
 	return b
 }
 
-// witnessBatch is the fixed, hand-written program that reproduces the known
-// findings on every invocation whatever the seed.
-func witnessBatch() *batch {
-	b := &batch{Name: "c08w", Kind: "witness", Delims: []string{".", "/", "_"}}
-	mk := func(name, class string, toks []tok, op string, cases [][]string) {
-		sp := &scopeSpec{NameClass: class, OpClass: map[string]string{op: "Upper"}, Tokens: toks}
-		var parts []string
-		shape := ""
-		for _, t := range toks {
-			if t.Var {
-				sp.Vars = append(sp.Vars, t.Text)
-				parts = append(parts, "{"+t.Text+"}")
-				shape += "v"
-			} else {
-				parts = append(parts, t.Text)
-				shape += "w"
-			}
-		}
-		if shape == "" {
-			shape = "-"
-		}
-		sp.PrefixShape = shape
-		sp.Scope = &idl.Scope{Name: name, Prefix: strings.Join(parts, "."), Ops: []*idl.Operation{{Name: op, Type: idl.T("Pay")}}}
-		sp.Cases = cases
-		for range cases {
-			sp.CaseClass = append(sp.CaseClass, "fixed")
-			sp.CaseStress = append(sp.CaseStress, "")
-		}
-		b.Scopes = append(b.Scopes, sp)
+// witnessBatches are the fixed, hand-written programs that are run on every
+// invocation, in both tiers, whatever the seed: together they hold the minimal
+// witness of every known finding of the property (known_findings.json), so
+// that each is re-observed (KNOWN-FINDING line) or reported as gone.
+//
+//	c08w   core shapes, delimiters . / _   lower-case-first scope names (go/java/dart title-case),
+//	       and the witnesses of the two fixed findings (Go '.', Dart $user_)
+//	c08wp  one scope with a variable, -delim %          percent_delimiter (go, java, dart)
+//	c08wq  prefix words with %, $ and '                 exotic_prefix_percent (go, java, dart),
+//	       exotic_prefix_dollar (dart), exotic_prefix_single_quote (py, py:asyncio, py:tornado)
+//	c08wx  prefix word with a backslash, no Go           exotic_prefix_backslash (java, dart); the Go
+//	       generator aborts on that file (gofmt error), which is C11's subject
+func witnessBatches() []*batch {
+	type w struct {
+		name, class string
+		toks        []tok
+		op          string
+		cases       [][]string
+		stress      string
+		skip        []string
 	}
-	mk("Events", "Upper", []tok{{"foo", false}, {"user", true}}, "Sent", [][]string{{"alice"}, {""}})
-	mk("events2", "lower", []tok{{"foo", false}, {"user", true}, {"bar", false}}, "Created", [][]string{{"bob-1"}})
-	mk("Plain", "Upper", nil, "Ping", [][]string{{}})
-	mk("plainLower", "camel", nil, "Pong", [][]string{{}})
-	mk("Fixed", "Upper", []tok{{"foo", false}, {"bar", false}}, "Done", [][]string{{}})
-	mk("Multi", "Upper", []tok{{"a", false}, {"user", true}, {"b", false}, {"tenant", true}}, "Both", [][]string{{"u1", "t1"}, {"same", "same"}})
-	finishBatch(b)
-	return b
+	build := func(b *batch, ws []w) *batch {
+		for _, x := range ws {
+			sp := &scopeSpec{NameClass: x.class, OpClass: map[string]string{x.op: "Upper"}, Tokens: x.toks}
+			var parts []string
+			shape := ""
+			for _, t := range x.toks {
+				if t.Var {
+					sp.Vars = append(sp.Vars, t.Text)
+					parts = append(parts, "{"+t.Text+"}")
+					shape += "v"
+				} else {
+					parts = append(parts, t.Text)
+					shape += "w"
+				}
+			}
+			if shape == "" {
+				shape = "-"
+			}
+			sp.PrefixShape = shape
+			sp.Scope = &idl.Scope{Name: x.name, Prefix: strings.Join(parts, "."), Ops: []*idl.Operation{{Name: x.op, Type: idl.T("Pay")}}}
+			sp.Cases = x.cases
+			for range x.cases {
+				sp.CaseClass = append(sp.CaseClass, "fixed")
+				sp.CaseStress = append(sp.CaseStress, "")
+			}
+			if x.stress != "" {
+				sp.Stress = []string{x.stress}
+			}
+			if len(x.skip) > 0 {
+				sp.SkipLangs = map[string]bool{}
+				for _, l := range x.skip {
+					sp.SkipLangs[l] = true
+				}
+			}
+			b.Scopes = append(b.Scopes, sp)
+		}
+		finishBatch(b)
+		return b
+	}
+	core := build(&batch{Name: "c08w", Kind: "witness", Delims: []string{".", "/", "_"}}, []w{
+		{"Events", "Upper", []tok{{"foo", false}, {"user", true}}, "Sent", [][]string{{"alice"}, {""}}, "", nil},
+		{"events2", "lower", []tok{{"foo", false}, {"user", true}, {"bar", false}}, "Created", [][]string{{"bob-1"}}, "", nil},
+		{"Plain", "Upper", nil, "Ping", [][]string{{}}, "", nil},
+		{"plainLower", "camel", nil, "Pong", [][]string{{}}, "", nil},
+		{"Fixed", "Upper", []tok{{"foo", false}, {"bar", false}}, "Done", [][]string{{}}, "", nil},
+		{"Multi", "Upper", []tok{{"a", false}, {"user", true}, {"b", false}, {"tenant", true}}, "Both", [][]string{{"u1", "t1"}, {"same", "same"}}, "", nil},
+	})
+	pct := build(&batch{Name: "c08wp", Kind: "witness", Delims: []string{"%"}}, []w{
+		{"Lumen", "Upper", []tok{{"UP", false}, {"account", true}}, "Tick", [][]string{{"GQWW4yg"}}, "", nil},
+	})
+	exo := build(&batch{Name: "c08wq", Kind: "witness", Delims: []string{"."}}, []w{
+		{"Birch", "Upper", []tok{{"region", true}, {"prefix%", false}}, "Umbra", [][]string{{"VQCIRqOjkY"}}, "exotic_prefix_percent", nil},
+		{"Onyx", "Upper", []tok{{"prefix$x", false}}, "Tango", [][]string{{}}, "exotic_prefix_dollar", nil},
+		{"Heron", "Upper", []tok{{"tenant", true}, {"a'", false}}, "Maple", [][]string{{"Uk"}}, "exotic_prefix_single_quote", []string{"dart"}},
+	})
+	bsl := build(&batch{Name: "c08wx", Kind: "witness", Delims: []string{"."}, Langs: []string{"java", "dart", "py", "py_asyncio", "py_tornado"}}, []w{
+		{"Xenon", "Upper", []tok{{"v1\\", false}}, "Raven", [][]string{{}}, "exotic_prefix_backslash", nil},
+	})
+	return []*batch{core, pct, exo, bsl}
 }
 
 // scopeText renders one scope for witnesses.
@@ -319,15 +378,17 @@ func scopeText(sp *scopeSpec) string {
 	return strings.TrimSpace(idl.RenderFile(f, idl.DefaultStyle()))
 }
 
+// stressOf names the stress class of a tuple ("" = core).  One class only, the
+// most specific one, so that signatures do not multiply: exotic prefix
+// characters > '%' delimiter > special characters in variable values.
 func stressOf(sp *scopeSpec, delim string, ci int) string {
-	var s []string
-	s = append(s, sp.Stress...)
-	if delim == "%" {
-		s = append(s, "percent_delimiter")
+	switch {
+	case len(sp.Stress) > 0:
+		return sp.Stress[0]
+	case delim == "%":
+		return "percent_delimiter"
+	case ci >= 0 && ci < len(sp.CaseStress) && sp.CaseStress[ci] != "":
+		return sp.CaseStress[ci]
 	}
-	if ci >= 0 && ci < len(sp.CaseStress) && sp.CaseStress[ci] != "" {
-		s = append(s, sp.CaseStress[ci])
-	}
-	sort.Strings(s)
-	return strings.Join(s, "+")
+	return ""
 }
